@@ -1124,7 +1124,8 @@ class Agent(dbus.service.Object):
             self._add_tx_item(item, is_transfer=False)
 
             dtntime = DtnTimeField.datetime_to_dtntime(timestamp)
-            self.polling_received(dtntime, interval_ms, node_id, str(conv.peer_address), conv.peer_port)
+            # values from the peer are made to fit the signal signature
+            self.polling_received(dtntime, max(0, min(interval_ms, 2 ** 31 - 1)), str(node_id), str(conv.peer_address), conv.peer_port)
 
         if ExtensionKey.TRANSFER in extmap:
             xfer_id, total_len, frag_offset, frag_data = extmap[ExtensionKey.TRANSFER]
